@@ -119,6 +119,15 @@ func (e *c13env) try(fam, kind, input string, readOnly bool, f func() error) {
 	e.reset()
 }
 
+// tryShape is try for content whose shape disagrees with the schema in one of the ways the property names: it has to be an error.
+func (e *c13env) tryShape(fam, kind, input string, f func() error) {
+	var err error
+	e.try(fam, kind, input, false, func() error { err = f(); return err })
+	if err == nil {
+		e.c.Violate("shape-accepted/"+fam+"/"+kind, "%s content (%s) whose shape disagrees with the schema was accepted without an error\ninput: %s\nschema:\n%s", fam, kind, quoteHead(input, 1200), head(e.s.Yang(), 2500))
+	}
+}
+
 func (p c13) Run(c *core.Ctx, idx int) {
 	r := c.Rand
 	var s *dp.Schema
@@ -243,7 +252,14 @@ func (p c13) jsonShapes(e *c13env) {
 			setAt(fresh, ps.path, kv)
 			b, _ := json.Marshal(fresh)
 			doc := string(b)
-			e.try("json-shape", jsonKindNames[ki]+"-at-"+posKind(e.s, ps.path), doc, false, func() error { return upsertJSON(e, doc) })
+			pk := posKind(e.s, ps.path)
+			kn := jsonKindNames[ki]
+			scalar := kn == "bool" || kn == "number" || kn == "string"
+			if (pk == "list" && (scalar || kn == "object" || kn == "empty-object")) || (pk == "container" && scalar) {
+				e.tryShape("json-shape", kn+"-at-"+pk, doc, func() error { return upsertJSON(e, doc) })
+				continue
+			}
+			e.try("json-shape", kn+"-at-"+pk, doc, false, func() error { return upsertJSON(e, doc) })
 		}
 		// delete the member (list entry without its key, ...)
 		var fresh interface{}
@@ -251,8 +267,40 @@ func (p c13) jsonShapes(e *c13env) {
 		if delAt(fresh, ps.path) {
 			b, _ := json.Marshal(fresh)
 			doc := string(b)
-			e.try("json-shape", "deleted-"+posKind(e.s, ps.path), doc, false, func() error { return upsertJSON(e, doc) })
+			if pk := posKind(e.s, ps.path); pk == "key" {
+				e.tryShape("json-shape", "deleted-key", doc, func() error { return upsertJSON(e, doc) })
+			} else {
+				e.try("json-shape", "deleted-"+pk, doc, false, func() error { return upsertJSON(e, doc) })
+			}
 		}
+	}
+	// the same mismatches sent to a list selection: the document for a list is {"name":[...]}
+	for _, ap := range e.t.AllPaths() {
+		_, l, _ := e.t.Resolve(ap)
+		if l == nil || !plainKeys(ap) {
+			continue
+		}
+		name := l.S.Name
+		for ki, kv := range jsonKinds {
+			kn := jsonKindNames[ki]
+			if strings.HasPrefix(kn, "array") || kn == "empty-array" || kn == "null" {
+				continue
+			}
+			b, _ := json.Marshal(map[string]interface{}{name: kv})
+			doc, lp := string(b), dp.PathString(ap)
+			e.tryShape("json-shape", kn+"-for-list-selection", doc+" -> "+lp, func() error {
+				n, err := nodeutil.ReadJSON(doc)
+				if err != nil {
+					return err
+				}
+				sel, err := e.browser().Root().Find(lp)
+				if err != nil || sel == nil {
+					return fmt.Errorf("verif: list %s not found: %v", lp, err)
+				}
+				return sel.UpsertFrom(n)
+			})
+		}
+		break
 	}
 	// duplicate list entries with the same key
 	for _, l := range src.Lists {
@@ -365,7 +413,29 @@ var pathFuzz = []string{"", "/", "//", "a//b", "a=", "=x", "a=1,2,3", "%zz", "%"
 	"ck=1,x,extra", "ck=1,x/ll", "ck=1,x/ll=3", "a?", "a??", "a?=", "a?&", "a?depth", "a?depth=", "?depth=1", "a/b/zz=1", "a/b/zz/1", "l/k", "l=a=b", "l==", "a\x00b", "a\nb", " a", "a ", "ä", strings.Repeat("a/", 300), strings.Repeat("../", 300) + "a", "l=" + strings.Repeat("x", 70000)}
 
 func (p c13) paths(e *c13env) {
-	root := func() *node.Selection { return e.browser().Root() }
+	p.pathsOn(e, "path", func() *node.Selection { return e.browser().Root() })
+	// the same paths on documents browsed in place: the JSON and the XML reader are node implementations too
+	jdoc := dp.EncodeJSON(e.s, e.t, dp.JOpts{})
+	p.pathsOn(e, "path-json-reader", func() *node.Selection {
+		n, err := nodeutil.ReadJSON(jdoc)
+		if err != nil {
+			panic("harness: ReadJSON of the reference encoding: " + err.Error())
+		}
+		return node.NewBrowser(e.s.Mod, n).Root()
+	})
+	if e.s.AugName == "" {
+		xdoc := dp.EncodeXML(e.s, e.s.Mod.Ident(), e.t, nil)
+		p.pathsOn(e, "path-xml-reader", func() *node.Selection {
+			n, err := nodeutil.ReadXMLDoc(strings.NewReader(xdoc))
+			if err != nil {
+				panic("harness: ReadXMLDoc of the reference encoding: " + err.Error())
+			}
+			return node.NewBrowser(e.s.Mod, n).Root()
+		})
+	}
+}
+
+func (p c13) pathsOn(e *c13env, fam string, root func() *node.Selection) {
 	find := func(path string) func() error {
 		return func() error {
 			sel, err := root().Find(path)
@@ -378,7 +448,7 @@ func (p c13) paths(e *c13env) {
 	}
 	for _, pth := range pathFuzz {
 		pp := pth
-		e.try("path", "catalog", pp, true, find(pp))
+		e.try(fam, "catalog", pp, true, find(pp))
 	}
 	// mutations of valid paths
 	valid := []string{}
@@ -392,20 +462,20 @@ func (p c13) paths(e *c13env) {
 	for _, v := range valid {
 		for i := 0; i <= len(v); i++ {
 			pp := v[:i]
-			e.try("path", "truncate", pp, true, find(pp))
+			e.try(fam, "truncate", pp, true, find(pp))
 		}
 		for k := 0; k < 40 && len(v) > 0; k++ {
 			i := e.c.Rand.Intn(len(v))
 			pp := v[:i] + subs[e.c.Rand.Intn(len(subs))] + v[i+1:]
-			e.try("path", "char-subst", pp, true, find(pp))
+			e.try(fam, "char-subst", pp, true, find(pp))
 			pp2 := v[:i] + subs[e.c.Rand.Intn(len(subs))] + v[i:]
-			e.try("path", "char-insert", pp2, true, find(pp2))
+			e.try(fam, "char-insert", pp2, true, find(pp2))
 		}
 		// from a non-root start
 		if sel, err := root().Find(v); err == nil && sel != nil {
 			for _, rel := range []string{"..", "../", "../..", "../" + v, "../../../../../x", "zz", "=1", "?depth=1"} {
 				r := rel
-				e.try("path", "relative", v+" -> "+r, true, func() error { _, err := sel.Find(r); return err })
+				e.try(fam, "relative", v+" -> "+r, true, func() error { _, err := sel.Find(r); return err })
 			}
 		}
 	}
@@ -417,6 +487,13 @@ var queryFuzz = []string{"depth=0", "depth=-1", "depth=abc", "depth=", "depth=99
 	"fc.range=l!2-1", "fc.range=l!0-0", "fc.range=l!99999999999999999999", "fc.range=l!-5-3", "fc.range=a/b!1-2", "fc.range=l/m!0-1", "fc.range=!1-2", "fc.max-node-count=0", "fc.max-node-count=-1",
 	"fc.max-node-count=x", "fc.max-node-count=1", "with-defaults=zz", "with-defaults=", "with-defaults=trim", "with-defaults=explicit", "with-defaults=report-all-tagged", "where=", "filter=", "zz=1", "=", "&", "&&", "a=b=c",
 	"depth=1&fields=a&content=config&with-defaults=trim&fc.range=l!0-1&fc.max-node-count=3", "%", "%zz=1", "depth=%31", "fields=%28", ";", "fields=a;b;c"}
+
+func init() {
+	// every group doubles the number of paths the expression stands for
+	for _, n := range []int{12, 24, 40} {
+		queryFuzz = append(queryFuzz, "fields=l"+strings.Repeat("(k%3Bv)", n), "fc.xfields=a"+strings.Repeat("(b%3Bc%3Bd)", n), "fc.range=l"+strings.Repeat("(k%3Bv)", n)+"!0-1")
+	}
+}
 
 func (p c13) queries(e *c13env) {
 	targets := []string{"", "a", "l", "ck"}
